@@ -211,6 +211,35 @@ class Session:
         g._vertices[(idx - 1) % len(g._vertices)].fixed = bool(flag)
         self.emit({'op': 'SetFixed', 'idx': (idx - 1) % len(g._vertices) + 1, 'flag': bool(flag)}, g._vertices, g._edges)
 
+    # ---- file round trip: the session continues on Graph.from_g2o(file written by to_g2o) ----
+    def reload(self):
+        g = self.g
+        fd, path = tempfile.mkstemp(suffix='.g2o')
+        os.close(fd)
+        raised, g2 = False, None
+        try:
+            g.to_g2o(path)
+            g2 = Graph.from_g2o(path)
+        except Exception:  # noqa  -- a refusal is an observation; the specification says when it is allowed
+            raised = True
+        finally:
+            os.unlink(path)
+        if raised:
+            self.emit({'op': 'Reload', 'raised': True, 'bound': [], 'gidx': [], 'chi2Ok': True}, g._vertices, g._edges)
+            return False
+        # chi^2 of what the file carries: the original graph without the edges that have no writer (evaluated on the ORIGINAL objects)
+        kept = [e for e in g._edges if type(e) in (EdgeOdometry, EdgeLandmark)]
+        want = sum(float(e.calc_chi2()) for e in kept)
+        got = float(g2.calc_chi2())
+        chi_ok = bool((np.isnan(want) and np.isnan(got)) or abs(got - want) <= 1e-9 * (1e-300 + abs(want)) + 1e-18)
+        bound = [[[j + 1 for j, w in enumerate(g2._vertices) if w is v][0] for v in e.vertices] for e in g2._edges]
+        gidx = [int(v.gradient_index) if v.gradient_index is not None else -1 for v in g2._vertices]
+        self.g = g2
+        self.vs, self.es = g2._vertices, g2._edges
+        self.emit({'op': 'Reload', 'raised': False, 'bound': bound, 'gidx': gidx, 'chi2Ok': chi_ok}, g2._vertices, g2._edges,
+                  {'chi2_before': want, 'chi2_after': got})
+        return True
+
     # ---- optimize ----
     def optimize(self, max_iter, fix_first, verbose, tol, split=None, twin=True):
         try:
